@@ -151,6 +151,36 @@ def _kern(g, scale):
                     g.count("kop:" + op)
 
 
+def special_sets(g):
+    r = g.r
+    v = g.lowval()
+    return [[(0, CH - 1)],                                             # full
+            [(a, b) for (a, b) in [(0, v - 1), (v + 1, CH - 1)] if a <= b],   # full minus one
+            [(0, 4096)], [(0, 4095)],                                   # just above / at the array threshold
+            [(v, v)],                                                   # single
+            [(CH - 1, CH - 1)], [(0, 0)],
+            rand_set(g)]
+
+
+@suite("kernspecial")
+def _kernspecial(g, scale):
+    """every kind pairing x special shapes (full, full-1, threshold, single) x every binary kernel: the shortcut branches
+    (isFull, empty result, same contents) and the aliasing of the result with its operands"""
+    r = g.r
+    for _ in range(max(1, int(1 * scale))):
+        sets = special_sets(g)
+        for a in sets:
+            for b in r.sample(sets, 3):
+                if card(a) == 0 or card(b) == 0:
+                    continue
+                for ka in ("A", "B", "R"):
+                    for kb in ("A", "B", "R"):
+                        ca, cb = render(g, a, ka), render(g, b, kb)
+                        for op in r.sample(BIN, 3):
+                            g.emit("kern %s %s %s" % (op, ca, cb))
+                            g.count("kspecial:" + op)
+
+
 @suite("kernq")
 def _kernq(g, scale):
     """unary kernels: queries, neighbour queries, range mutations, offset"""
